@@ -163,7 +163,7 @@ def run_case(c):
     mal_first = any(n not in wnames for n in ro[:first_w]) if c['ms'] else False
     nt = (mal_first or not c['ms']) and ('%s|%s|%s' % (c['reader'], ','.join(c['ms']) or 'none', 'same' if got == base else 'differs'))
     if got != base:
-        diffkeys = sorted(k for k in base if base[k] != got.get(k))
+        diffkeys = sorted(k for k in set(base) | set(got) if base.get(k) != got.get(k))
         k0 = diffkeys[0].split(':')[0]
         return {'verdict': 'viol', 'sig': 'C19|%s|neighbours=%s|well-formed-entry-%s-differs' % (c['reader'], '+'.join(c['ms']), k0),
                 'klass': 'neighbour-changed-outcome', 'nontrivial': nt, 'execs': 2, 'detail': detail}
